@@ -83,6 +83,50 @@ enum Effect
     UnitSpawned(u32, u32),
 }
 
+/// Expected output; `count: None` = unconstrained (a re-entrant call on a running syscall / named key runs on
+/// state that is documented not to persist).
+#[derive(Debug, Clone, PartialEq, Eq)]
+struct ExpOut
+{
+    f: F,
+    x: u32,
+    count: Option<u32>,
+    nested: Vec<Result<ExpOut, ()>>,
+}
+
+#[derive(Debug, Clone, PartialEq, Eq)]
+enum ExpEffect
+{
+    Marker(F, u32, Option<u32>),
+    QueuedResult(Result<ExpOut, ()>),
+    Unit(u32, u32),
+    UnitSpawned(u32, u32),
+}
+
+fn out_matches(got: &Result<Out, ()>, want: &Result<ExpOut, ()>) -> bool
+{
+    match (got, want)
+    {
+        (Err(()), Err(())) => true,
+        (Ok(g), Ok(w)) =>
+            g.f == w.f && g.x == w.x && w.count.map(|c| c == g.count).unwrap_or(true) && g.nested.len() == w.nested.len()
+                && g.nested.iter().zip(w.nested.iter()).all(|(a, b)| out_matches(a, b)),
+        _ => false,
+    }
+}
+
+fn effect_matches(got: &Effect, want: &ExpEffect) -> bool
+{
+    match (got, want)
+    {
+        (Effect::Marker(f, x, c), ExpEffect::Marker(f2, x2, c2)) => f == f2 && x == x2 && c2.map(|w| w == *c).unwrap_or(true),
+        (Effect::QueuedResult(r), ExpEffect::QueuedResult(w)) => out_matches(r, w),
+        (Effect::Unit(a, b), ExpEffect::Unit(c, d)) => a == c && b == d,
+        (Effect::UnitSpawned(a, b), ExpEffect::UnitSpawned(c, d)) => a == c && b == d,
+        _ => false,
+    }
+}
+
 #[derive(Default)]
 struct State
 {
@@ -201,7 +245,7 @@ struct Model
     running: Vec<Key>,
     unit_count: u32,
     unit_slots: Vec<u32>,
-    effects: Vec<Effect>,
+    effects: Vec<ExpEffect>,
     classes: BTreeMap<String, u32>,
 }
 
@@ -211,7 +255,7 @@ impl Model
 
     /// Predicts a call (and, for exclusive systems, everything nested in it). Effects of queued commands are
     /// appended in the order the framework must apply them: after the body, before the call returns.
-    fn call(&mut self, spec: &CallSpec, depth: u32) -> Result<Out, ()>
+    fn call(&mut self, spec: &CallSpec, depth: u32) -> Result<ExpOut, ()>
     {
         let (key, f) = match spec.target
         {
@@ -233,26 +277,34 @@ impl Model
             }
         };
         if depth > 0 { self.hit("C17:nested_or_command_issued"); }
-        let count = { let c = self.counts.entry(key).or_default(); *c += 1; *c };
+        // re-entering a running syscall / named key: runs once on state that does not persist (documented);
+        // the outer-most invocation's state is the one that is kept
+        let reentrant = self.running.contains(&key);
+        let count = if reentrant { self.hit("C17:reentrant_same_key"); None } else { let c = self.counts.entry(key).or_default(); *c += 1; Some(*c) };
         self.running.push(key);
-        let nested: Vec<Result<Out, ()>> = if f == F::N { Vec::new() } else { spec.nested.iter().map(|n| self.call(n, depth + 1)).collect() };
+        let nested: Vec<Result<ExpOut, ()>> = if f == F::N { Vec::new() } else { spec.nested.iter().map(|n| self.call(n, depth + 1)).collect() };
         // the body's commands: marker first, then the queued calls in order
-        self.effects.push(Effect::Marker(f, spec.x, count));
+        self.effects.push(ExpEffect::Marker(f, spec.x, count));
         for q in spec.queued.iter()
         {
             let r = self.call(q, depth + 1);
-            self.effects.push(Effect::QueuedResult(r));
+            self.effects.push(ExpEffect::QueuedResult(r));
         }
         self.running.pop();
-        Ok(Out{ f, x: spec.x, count, nested })
+        Ok(ExpOut{ f, x: spec.x, count, nested })
     }
 }
 
-/// Would calling `target` re-enter a running syscall / named key (documented as unsupported: state is not kept)?
+/// `named_syscall_direct` on a key that is currently running is never generated (whether it finds a system depends
+/// on what a nested call left behind); re-entrant `syscall` / `named_syscall` are generated (documented behaviour).
 fn reenters(stack: &[Target], target: Target) -> bool
 {
-    let key = |t: Target| match t { Target::Syscall(f) => Some((0u8, 0u8, f)), Target::Named(n, f) | Target::NamedDirect(n, f) => Some((1, n, f)), Target::Spawned(_) => None };
-    match key(target) { Some(k) => stack.iter().any(|s| key(*s) == Some(k)), None => false }
+    let key = |t: Target| match t { Target::Named(n, f) | Target::NamedDirect(n, f) => Some((n, f)), _ => None };
+    match target
+    {
+        Target::NamedDirect(..) => stack.iter().any(|s| key(*s) == key(target)),
+        _ => false,
+    }
 }
 
 //-------------------------------------------------------------------------------------------------------------------
@@ -279,7 +331,7 @@ fn run_inner(case: &SysCase, out: &mut SysOutcome)
             {
                 let want = model.call(spec, 0);
                 let got = perform(&mut world, spec);
-                if got != want { out.violations.push(format!("op {i} {:?}: returned {:?}, expected {:?}", spec.target, got, want)); }
+                if !out_matches(&got, &want) { out.violations.push(format!("op {i} {:?}: returned {:?}, expected {:?}", spec.target, got, want)); }
             }
             TopOp::Register(n, f) =>
             {
@@ -320,7 +372,7 @@ fn run_inner(case: &SysCase, out: &mut SysOutcome)
                 world.commands().syscall(*x, unit_sys);
                 world.flush();
                 model.unit_count += 1;
-                model.effects.push(Effect::Unit(*x, model.unit_count));
+                model.effects.push(ExpEffect::Unit(*x, model.unit_count));
                 model.hit("C17:commands_syscall");
             }
             TopOp::SpawnUnit =>
@@ -339,15 +391,15 @@ fn run_inner(case: &SysCase, out: &mut SysOutcome)
                     world.commands().spawned_syscall::<In<u32>>(id, *x);
                     world.flush();
                     model.unit_slots[k] += 1;
-                    model.effects.push(Effect::UnitSpawned(*x, model.unit_slots[k]));
+                    model.effects.push(ExpEffect::UnitSpawned(*x, model.unit_slots[k]));
                     model.hit("C17:commands_spawned_syscall");
                 }
             }
         }
         // every queued effect is visible as soon as the entry point returns, in order
         let got: Vec<Effect> = ST.with(|s| s.borrow().effects[before..].to_vec());
-        let want: Vec<Effect> = model.effects[mbefore..].to_vec();
-        if got != want
+        let want: Vec<ExpEffect> = model.effects[mbefore..].to_vec();
+        if got.len() != want.len() || !got.iter().zip(want.iter()).all(|(g, w)| effect_matches(g, w))
         {
             out.violations.push(format!("op {i} {:?}: effects visible on return {:?}, expected {:?}", op, got, want));
         }
@@ -500,7 +552,7 @@ impl Engine for SysEngine
                         {
                             let mut cand = best.clone();
                             if let TopOp::Call(s) = &mut cand.ops[i] { if which == 0 { s.nested.clear(); } else { s.queued.clear(); } }
-                            if fails(&cand) { best = cand; progress = true; }
+                            if cand != best && fails(&cand) { best = cand; progress = true; }
                         }
                     }
                 }
